@@ -13,6 +13,8 @@ objects, then 2..12 API-level operations
   ['wrap', opindex, [ref, key, kwarg|None], soft, ser, defer]   Use.from_func(func=<the Use of op>, ...)
                                                                 [.get_task() unless defer]
   ['get', opindex]                                              <the Use of op>.get_task() once more
+  ['bulk', kind, n, which]                                      n OTHER requests with n fresh names (a long
+                                                                history): kind use | stats | make | userun
   ['make', fac, mk]                                             factory.make(**mk)
   ['userun', ur, mk, kwarg|None, fid]                           @userun(kwarg, **mk) def f
   ['stats', 'task'|'test', name, [ref, ...]]                    task_stats / test_stats
@@ -55,6 +57,8 @@ def nslots(case, op):
         return 2 + len(case['useruns'][op[1]]['posts'])
     if op[0] == 'wrap':
         return 0 if op[5] else 1
+    if op[0] == 'bulk':
+        return 0
     return NSLOTS[op[0]]
 
 
@@ -203,6 +207,8 @@ class World:
                 self.ur_fac.append(ur['fac'])
         self.config = Config()
         self.config.set('path', 'output-root', outroot)
+        self.bulk = []            # tasks of the filler requests (kept alive: identities stay unique)
+        self.last_bulk = []
         self.slots = []           # task object | None (operation raised or was skipped)
         self.uses = {}            # op index -> Use object
         self.numbers = {id(t): i for i, t in enumerate(self.base)}
@@ -315,6 +321,33 @@ def run_op(world, k, op):
                                 deps_type='soft' if soft else 'hard', serialize=ser)
             world.uses[k] = use
             return [] if defer else [use.get_task()]
+        if kind == 'bulk':
+            # many OTHER requests, each with a name of its own, between the requests of interest
+            _, what, count, which = op
+            made = []
+            world.last_bulk = made
+            world.bulk.append(made)
+            for i in range(count):
+                tag = f'z{k}_{i}'
+                if what == 'use':
+                    def filler(*args, **kwargs):
+                        return ('Z', args, kwargs)
+                    filler.__name__ = filler.__qualname__ = tag
+                    made.append(Use.from_func(func=filler, task=world.base[which % len(world.base)],
+                                              deps_type='soft' if i % 2 else 'hard').get_task())
+                elif what == 'stats':
+                    stats = (task_stats if i % 2 else test_stats)(
+                        name=tag, tasks=[world.base[which % len(world.base)]])
+                    made += list(stats.depends_on)
+                elif what == 'make':
+                    fac = world.facs[which % len(world.facs)]
+                    made.append(fac.make(name=tag) if i % 2 else fac.make(extra_args=[tag]))
+                else:
+                    deco = world.useruns[which % len(world.useruns)](None, extra_args=[tag])
+                    task = deco(world.funcs[i % NF]).get_task()
+                    made.append(task)
+                    made += list(task.depends_on)
+            return []
         if kind == 'get':
             use = world.uses.get(op[1])
             if use is None:
@@ -431,6 +464,7 @@ class Book:
         self.hard = [set(b['hard']) for b in case['base']]
         self.soft = [set(b['soft']) for b in case['base']]
         self.slot_class = []                   # class | None
+        self.bulk_ids = set()                  # id() of the tasks of filler requests
         self.obj_class = {}                    # id(task object) -> class
         self.class_obj = {}
         for i, obj in enumerate(world.base):
@@ -500,6 +534,11 @@ def check_result(ctx, book, case, what, req, got, hard, soft, call, clash_ok=Fal
             book.class_obj[cls] = got
             book.expect[cls] = call
         return cls
+    if id(got) in book.bulk_ids:
+        ctx.oracle_failure(f'{what}: two different requests silently share one task '
+                           f'(a task of the filler requests, {got.name!r}) :: {case}', case,
+                           key='different-requests-share')
+        return None
     if id(got) in book.obj_class:
         other = book.obj_class[id(got)]
         ctx.oracle_failure(f'{what}: two different requests silently share one task '
@@ -588,6 +627,18 @@ def oracle_op(ctx, book, world, case, k, op, res):
         book.use_req[k] = (ufid, cinj, soft, ser)
         if not defer:
             book.slot_class.append(use_step('wrap', ufid, cinj, soft, ser, objs[0]))
+    elif kind == 'bulk':
+        if isinstance(res, Exception):
+            ctx.oracle_failure(f'bulk: one of {op[2]} fresh requests raises {type(res).__name__} '
+                               f':: {case}', case, key='bulk-raises-' + type(res).__name__)
+            return
+        for task in world.last_bulk:
+            if id(task) in book.obj_class or id(task) in book.bulk_ids:
+                ctx.oracle_failure(f'bulk: a request never made before got an existing task '
+                                   f'{task.name!r} :: {case}', case, key='different-requests-share')
+                break
+            book.bulk_ids.add(id(task))
+        ctx.count('bulk_requests', len(world.last_bulk))
     elif kind == 'get':
         ufid, uinj, usoft, user = book.use_req[op[1]]
         book.slot_class.append(use_step('get_task of an earlier wrapper', ufid, uinj, usoft, user,
@@ -745,7 +796,7 @@ def run_case(ctx, case, outroot, judge=True):
     results = []
     for k, op in enumerate(case['ops']):
         try:
-            with time_limit(1):
+            with time_limit(120 if op[0] == 'bulk' else 1):
                 res = run_op(world, k, op)
         except Hang as exc:
             res = exc
@@ -1108,6 +1159,39 @@ def corpus():
     return out
 
 
+def long_corpus(tier):
+    '''long histories: identical requests separated by thousands of other requests with names of
+    their own, for every cache (Use._CACHE through Use / map / stats, the factories, UseRun)'''
+    a, b = ['b', 0], ['b', 1]
+    b2 = [{'name': 'a', 'hard': [], 'soft': []}, {'name': 'b', 'hard': [], 'soft': []}]
+    fac = {'name': 'echo', 'deps': [], 'soft': [], 'kwargs': [[0, 0], [1, 1]], 'tmpl': [0, 1]}
+    big, mid = (3000, 1500) if tier == 'quick' else (5000, 3000)
+
+    def mk(name=None, extra=None):
+        return {'name': name, 'extra': extra, 'kwargs': [], 'sub': [], 'deps': [], 'soft': []}
+    out = []
+    for kind, n in (('use', big), ('stats', mid)):
+        out.append({'base': b2, 'facs': [fac], 'useruns': [], 'collect': [[['s', 0], ['s', 1], ['s', 3], ['s', 9]]],
+                    'ops': [['use', 0, [[a, 0, None]], False, False, 'stack'],         # s0
+                            ['wrap', 0, [b, 0, 1], False, False, False],               # s1
+                            ['map', 0, 2],                                             # s2 s3
+                            ['bulk', kind, n, 0],
+                            ['get', 0], ['get', 1],                                    # s4 s5
+                            ['map', 0, 2],                                             # s6 s7
+                            ['use', 0, [[a, 0, None]], False, False, 'using'],         # s8
+                            ['map', 0, 3]]})                                           # s9 s10
+    out.append({'base': b2, 'facs': [fac], 'useruns': [{'fac': 0, 'posts': [2]}, {'fac': 0, 'posts': []}],
+                'collect': [[['s', 0], ['s', 3], ['s', 4], ['s', 6]]],
+                'ops': [['make', 0, mk(extra=[1])], ['userun', 0, mk(extra=[1]), None, 0],    # s0 | s1 s2 s3
+                        ['make', 0, mk(name='t', extra=[2])], ['userun', 1, mk(extra=[2]), 0, 1],  # s4 | s5 s6
+                        ['bulk', 'make', mid, 0], ['bulk', 'userun', mid // 2, 0],
+                        ['bulk', 'userun', mid // 2, 1],
+                        ['make', 0, mk(extra=[1])], ['userun', 0, mk(extra=[1]), None, 0],
+                        ['make', 0, mk(name='t', extra=[2])], ['userun', 1, mk(extra=[2]), 0, 1],
+                        ['map', 1, 4], ['get', 3]]})
+    return out
+
+
 def pick_f(rng, near=None):
     '''a function of the alphabet; with ``near`` mostly its look-alike'''
     if near is not None and rng.random() < 0.6:
@@ -1115,7 +1199,9 @@ def pick_f(rng, near=None):
     return rng.randrange(NF)
 
 
-def gen_case(rng):
+def gen_case(rng, long_n=None):
+    '''a random history; with ``long_n`` a LONG one: long_n other requests with fresh names are
+    made somewhere in the middle and most later operations repeat earlier ones'''
     nb = rng.choice([1, 2, 2, 3, 4])
     names = ['a', 'b', 'c', 'a,b', 'a'] if rng.random() < 0.35 else ['a', 'b', 'c', 'd', 'e']
     base = []
@@ -1196,7 +1282,7 @@ def gen_case(rng):
     def mutate(op):
         '''an earlier operation again, identical or with ONE component changed'''
         op = json.loads(json.dumps(op))
-        if rng.random() < 0.35:
+        if rng.random() < ident_p[0]:
             return op
         kind = op[0]
         if kind == 'use':
@@ -1300,9 +1386,17 @@ def gen_case(rng):
                 op[3] = [ref() for _ in range(rng.choice([1, 2]))]
         return op
 
+    ident_p = [0.35]
+    repeat_p = 0.45
+    bulk_at = rng.randrange(1, nops) if long_n else None
     for _ in range(nops):
-        if case['ops'] and rng.random() < 0.45:
-            op = mutate(rng.choice(case['ops']))
+        if len(case['ops']) == bulk_at:
+            kinds = ['use', 'use', 'stats', 'make'] + (['userun'] if useruns else [])
+            case['ops'].append(['bulk', rng.choice(kinds), long_n, rng.randrange(4)])
+            ident_p[0], repeat_p = 0.6, 0.85
+        earlier = [o for o in case['ops'] if o[0] != 'bulk']
+        if earlier and rng.random() < repeat_p:
+            op = mutate(rng.choice(earlier))
         else:
             op = fresh()
         case['ops'].append(op)
@@ -1334,7 +1428,12 @@ def run(ctx):
     cases = corpus()
     ctx.count('corpus', len(cases))
     nrand = 1200 if ctx.tier == 'quick' else 20000
-    cases += [gen_case(rng) for _ in range(nrand)]
+    cases += long_corpus(ctx.tier)
+    # long histories: 1 % of the random ones (sizes beyond any plausible bound of a cache)
+    sizes = [1100, 1300, 1600, 2100] if ctx.tier == 'quick' else [1100, 1600, 2100, 3000, 5000]
+    for i in range(nrand):
+        cases.append(gen_case(rng, rng.choice(sizes) if i % 100 == 50 else None))
+    ctx.count('long_histories', sum(any(o[0] == 'bulk' for o in c['ops']) for c in cases))
     outroot = os.path.join(ctx.wd(), 'out')
     os.makedirs(outroot, exist_ok=True)
     records = []
